@@ -563,6 +563,8 @@ func (s *UtxoStore) VerifWF() bool { return s != nil && s.bucketMeta != nil }
 //@   props C19
 //@   requires s.VerifWF() && rtx != nil && hash != nil
 //@   modifies gmap("iterkey")
+// creditFromTx(rtx, h): in the view of the read transaction rtx some credit was created by transaction h
+//@   assume result == ghostb("creditFromTx", rtx, strOf(hash[:]))
 
 // ---- C12: the first-use height of an address record is written only when the address has no used record yet
 // (absent, or height 0 = unused); a later credit never replaces an earlier first use.
